@@ -531,10 +531,21 @@ Example ex_mesh_empty_bytes :
   enc MeshData_ty (mesh_data_of (empty_mesh TriangleList)) = Some [3; 0; 0; 0; 0; 0; 0; 0; 0; 0; 0; 0; 0].
 Proof. vm_compute. reflexivity. Qed.
 
-(* garbage that decompresses but is not a MeshData gives the empty TriangleList mesh; a broken
-   lz4 stream is the `unwrap` panic *)
+(* garbage that decompresses but is not a MeshData gives the empty TriangleList mesh; so does a
+   broken lz4 stream (a download cut off at the transfer limit), since the repair 1d88107 *)
 Example ex_bincode_failure : bin_to_mesh (compress [3; 7]) = Ok (empty_mesh TriangleList).
 Proof. vm_compute. reflexivity. Qed.
 
-Example ex_decompress_panic : bin_to_mesh [0x10; 97; 2; 0] = Panic.
+Example ex_decompress_failure : bin_to_mesh [0x10; 97; 2; 0] = Ok (empty_mesh TriangleList).
 Proof. vm_compute. reflexivity. Qed.
+
+(* a downloaded byte string, whatever it is, never makes the decoder panic (since the repair 1d88107:
+   a stream that does not decompress — a download cut off at the transfer limit — gives the same
+   fallback as bytes that do not deserialize) *)
+Theorem bin_to_mesh_never_panics : forall bs, bin_to_mesh bs <> Panic.
+Proof.
+  intros bs. unfold bin_to_mesh. destruct (decompress bs) as [e|raw]; [discriminate|].
+  destruct (dec MeshData_ty raw) as [[v rest]|]; [|discriminate].
+  destruct (mesh_of_data v); discriminate.
+Qed.
+Print Assumptions bin_to_mesh_never_panics.
